@@ -147,8 +147,9 @@ def run_ren(probe, model, reqs, chunks=16, timeout=900):
     n = len(reqs)
     if n == 0:
         return [], [], [], None
-    size = max(1, (n + chunks - 1) // chunks)
-    parts = [reqs[i:i + size] for i in range(0, n, size)]
+    chunks = max(1, min(chunks, n))
+    idx = [list(range(k, n, chunks)) for k in range(chunks)]      # round robin: expensive cases spread out
+    parts = [[reqs[i] for i in ix] for ix in idx]
 
     def one(part):
         rc, out, err = vlib.run_lines(probe, part, timeout=timeout)
@@ -168,11 +169,15 @@ def run_ren(probe, model, reqs, chunks=16, timeout=900):
         return (obs, mo, mreq, None, part)
 
     res = vlib.pmap(one, parts)
-    obs, mo, mreq, errs = [], [], [], []
-    for o, m, q, e, part in res:
+    obs, mo, mreq, errs = [None] * n, [None] * n, [None] * n, []
+    for ix, (o, m, q, e, part) in zip(idx, res):
         if e:
             errs.append((e, part))
-        obs += o if o is not None else [None] * len(part)
-        mo += m if m is not None else [None] * len(part)
-        mreq += q if q is not None else [None] * len(part)
+        for j, i in enumerate(ix):
+            if o is not None:
+                obs[i] = o[j]
+            if m is not None:
+                mo[i] = m[j]
+            if q is not None:
+                mreq[i] = q[j]
     return obs, mo, mreq, errs
